@@ -10,6 +10,7 @@ Decided clauses (marshalling tables and wrapper forwarding):
       validator configuration
   W3  core exports: each name in magpylib.core.__all__ is the function the BHJM_* wrapper of that class calls
   W4  sibling tiling in get_src_dict: position and orientation are tiled by the same pipeline (row alignment of the two paths)
+  W5  (E3-ORIGIN) the exported core functions modify none of their array arguments in place
 Not decided: dataframe ordering, value equality between interfaces.
 """
 from __future__ import annotations
@@ -275,11 +276,13 @@ def w4(repo, res):
 
 
 def run(repo, res, tier):
-    res.rules = ["W1 wrapper family + chain forwarding", "W2 rank table vs signatures and validators", "W3 core exports", "W4 sibling tiling"]
+    res.rules = ["W1 wrapper family + chain forwarding", "W2 rank table vs signatures and validators", "W3 core exports", "W4 sibling tiling", "W5 core functions leave their arguments unchanged"]
     w1(repo, res)
     w2(repo, res)
     w3(repo, res)
     w4(repo, res)
+    import origin_rules
+    origin_rules.core_mutations(repo, res, rule="W5")
     return {}
 
 
